@@ -417,6 +417,23 @@ class Tracer:
                 res = self._map_like(bd, bb, n, t, ml, fp)
                 if res is not None:
                     return res
+            if t.kind == "call" and t.callee in ("std::result::Result::<T, E>::or_else", "std::option::Option::<T>::or_else") and len(t.args) == 2:
+                res = list(self._op_next(bd, bb, n, t.args[0], fp))
+                cl = None
+                for o in self.origins_of_operand(bd, bb, n, t.args[1]):
+                    if o.kind == "agg" and o.detail and o.detail.startswith("closure "):
+                        cl = o.detail[len("closure "):]
+                if cl is not None and self.facts.has(cl):
+                    res.extend(self.return_origins(self.facts.body(cl), fp))
+                else:
+                    res.append(Origin("call", bd, term=t, fpath=fp))
+                return res
+            if t.kind == "call" and t.callee in ("std::result::Result::<T, E>::or", "std::option::Option::<T>::or") and len(t.args) == 2:
+                return list(self._op_next(bd, bb, n, t.args[0], fp)) + list(self._op_next(bd, bb, n, t.args[1], fp))
+            if t.kind == "call" and t.callee in ("std::result::Result::<T, E>::map", "std::option::Option::<T>::map") and len(t.args) == 2:
+                fnn = t.args[1].fn() if t.args[1].is_const else None
+                if fnn in ("std::convert::From::from", "std::convert::Into::into"):
+                    return self._op_next(bd, bb, n, t.args[0], fp)
             ident = self._identity(t) if t.kind == "call" else None
             if ident is not None and len(t.args) > ident[0]:
                 ai, mode = ident
